@@ -232,10 +232,13 @@ FINDING_OF = {"IndexError@eval": "C03-empty-coding", "span": "C03-lost-dimension
 
 def PROOFS():
     """The per-factor part of the coding under contract: a factor evaluated with spans_intercept gets the full indicator
-    coding, otherwise the reduced one, chosen afresh at every evaluation (the redundancy analysis of contrasts.py that decides
-    spans_intercept per term is NOT under contract: bounded tier only)."""
-    from ..contracts import categorical_c, variable_c, utils_c, matrices_c, call_resolver_c, transforms_c  # noqa: F401
+    coding, otherwise the reduced one, chosen afresh at every evaluation. Of the redundancy analysis of contrasts.py that decides
+    spans_intercept per term, the identity layer (ExpandedFactor / Subterm equality and hashing: what 'already used' means) and the
+    absorption step (can_absorb / absorb) are under contract; its loops (pick_contrast, _simplify_subterm, _sorted_subsets) are not:
+    bounded tier only."""
+    from ..contracts import categorical_c, variable_c, utils_c, matrices_c, call_resolver_c, transforms_c, contrasts_c  # noqa: F401
     return [("vf.contracts.categorical_c", categorical_c.FUNCTIONS),
+            ("vf.contracts.contrasts_c", contrasts_c.FUNCTIONS),
             # columns of an interaction are the pairwise products; the matrix is the terms' blocks side by side, one term per name
             ("vf.contracts.utils_c", utils_c.FUNCTIONS),
             ("vf.contracts.matrices_c", ["formulae.matrices.CommonEffectsMatrix.__init__", "formulae.matrices.CommonEffectsMatrix.evaluate"]),
